@@ -300,7 +300,7 @@ def run_batch(pid: str, tier: str, base_seed: int, workers: int | None = None,
 
         submit_more()
         last_progress = time.monotonic()
-        stall_cap = float(os.environ.get("SFSIM_STALL_S", 240))
+        stall_cap = float(os.environ.get("SFSIM_STALL_S", getattr(mod, "STALL_S", 240)))
         while pending:
             try:
                 done = next(as_completed(list(pending), timeout=5))
